@@ -9,9 +9,65 @@ BASE = "cd /repo && /venv/bin/python -m pytest -ra -q -p no:cacheprovider --time
 # id -> (technique, level text, level note, design ref)
 CHECKS = {
  'C01': ('runtime monitor: matching-validity oracle on every XMAP record, writer row, bus candidate and direct Aligner.align return; resolver trace classifies known mechanisms',
-         'Exploration: the real composed pipeline and the real Aligner are executed on thousands of generated inputs (all modes, non-default parameters, hostile seed lists) while an independent oracle judges every record, candidate and return value; held on K observed executions, not a proof.',
-         'Trusts the harness CMAP writer/parsers as ground truth and the M-serial substitution (cross-checked against M-pool). Known findings resolver-uncompared-neighbours / resolver-offset-label-lists are reported as KNOWN-FINDING by trace mechanism.',
-         'DESIGN.md 5 C01'),
+         'the real composed pipeline (M-serial + M-pool sample) and the real Aligner are executed on generated inputs (all modes, non-default parameters, long multi-indel molecules, hostile seed lists); an oracle on independently parsed CMAP text judges every record, writer row, candidate and return value',
+         'trusts the harness CMAP writer/parsers and the M-serial substitution (cross-checked against M-pool); finding resolver-uncompared-neighbours is reported as KNOWN-FINDING by trace mechanism'),
+ 'C02': ('runtime monitor: field oracle on the text of every XMAP record vs independently parsed CMAP text',
+         'every record of every file written by end-to-end runs (both strands, second-pass, joined, one-decimal coordinates, large offsets, first label at 0) is recomputed from the CMAP text alone',
+         'only records that satisfy C01 are judged; QryLen accepted as last-first or last-first+1; 0.051 tolerance'),
+ 'C03': ('exhaustive small-scope enumeration + replay automaton monitor on cigarString / HitEnum',
+         'all order-preserving matchings on label grids up to 7x7 (quick) / 9x9 (thorough), both strands, 1-3 segments, built with the real row classes, plus random large matchings and every end-to-end record; a replay automaton written from the statement must reproduce the pairs',
+         'end-to-end records violating C01 are skipped'),
+ 'C04': ('runtime monitor: independent re-scoring of every writer row and bus candidate from raw maps, peak positions and the command-line parameters',
+         'confidence of every row/candidate of end-to-end runs with pairwise distinct non-default -sp/-dp/-su/-d/-ms/-bs (zero values included) is recomputed from raw coordinates; offsets, accounting of every label inside a segment span and the written column are checked',
+         'rows violating C01 skipped; labels coincident with a segment boundary are not "inside"'),
+ 'C05': ('runtime monitor over three executions per input: message-bus candidates and primary peaks vs file records',
+         'separate/all/best runs of the same multi-reference input; InitialAlignment and candidate messages (tagged by pass) decide seed origin, candidate count, best-candidate selection, one record per query and best-mode id set/order',
+         'exact confidence ties and peak-score ties at the cut are counted and skipped'),
+ 'C06': ('runtime monitor with planted ground truth',
+         'exact copies of interior reference windows (both strands, arbitrary offsets/tails, near-origin windows, first label at 0) are planted per the quantifier; record, strand, pairs, HitEnum and |queryShift| <= 200 are checked against the generator\'s truth',
+         'generator follows the quantifier literally (spacing >= 2 kb, mean >= 9 kb, >= 4 labels from the ends)'),
+ 'C07': ('runtime monitor on process boundary: exit status/exceptions of in-process and real CLI runs, strict file format, read-back by the project reader, isolation differential',
+         'degenerate and hostile-parameter inputs (and long multi-indel molecules) through M-serial and the real CLI; aborts keyed by exception type and innermost repository frame; every file parsed strictly and read back with both pair parsers; ordinary queries compared with a run without the degenerate molecules',
+         'CMAP well-formedness as written by the harness; md >= r1 as the property states'),
+ 'C08': ('differential monitor over four executions per input (all output modes) with writer-row classification',
+         'the same input is run in best/separate/joined/all; file equalities, AlignedRest flags, partition of single-pass records, join eligibility (reference, strand, gap <= maxDifference incl. 0), subset and union clauses are checked from the file text',
+         'finding join-first-segments-only is classified from the parts\' segments and reported as KNOWN-FINDING'),
+ 'C09': ('schedule perturbation: real CLI subprocesses with -c 1..16, repetitions, hash seeds, and in-worker seeded sleeps; byte comparison',
+         'each input is executed 9 (quick) / 17 (thorough) times with different worker counts, PYTHONHASHSEED values and in-worker jitter that reorders completion; all files must be byte-identical apart from the argument echo; distinct completion orders are measured from worker-side logs',
+         'jitter Extensions only sleep/log at existing dispatch points; same machine and input paths'),
+ 'C10': ('metamorphic monitor: base run vs permuted / restricted / filtered / extended / single-query runs',
+         'seven relations per base input (permute+shuffle rows, remove queries, -qId, -rId, reversed reference rows, added queries, query alone), records compared per (file, query)',
+         'all runs M-serial with one worker (shared state across queries is the hostile case); ids unique'),
+ 'C11': ('metamorphic monitor on lattice inputs: query vs mirror image in the same run',
+         'lattice-commensurate references/queries (three resolution pairs, clean/noisy/indels, first label at 0, tails), -d below half the lattice step; first-pass records of q and mirror(q) must mirror each other incl. confidence',
+         'exact confidence ties between different candidates are skipped and counted'),
+ 'C12': ('exhaustive small-scope enumeration + oracle written from the statement; wrapper on AlignerEngine.align end to end',
+         'all label multisets on a small lattice x maxDistance x seeds x strands x fragment offsets (166k quick, >1M thorough), random tie-heavy maps, and every engine call of end-to-end runs (second-pass fragments included)',
+         'reverse-strand coordinate convention length-1-position'),
+ 'C13': ('exhaustive small-scope enumeration vs executable model + clause predicates; wrapper on getSegments end to end',
+         'all score sequences up to length 7/8 over a 6-symbol alphabet hitting every threshold equality x 7/11 (minScore, breakSegmentThreshold) pairs (2.3M quick), random float sequences, and every getSegments call of end-to-end runs',
+         'float-valued drives tolerate comparisons within 1e-6 of equality (running sum vs re-summed value); the exact enumeration does not'),
+ 'C14': ('reference-model monitor: exhaustive 2^n subset enumeration against SegmentChainer.chain; coordinate overlap rule against every getScore',
+         'synthetic segment sets on coordinate grids (both strands, both join variants, multipliers incl. 0 and 0.1) and real chain calls captured during hostile direct drives and end-to-end runs; optimality by subset enumeration (n<=8/10), admissibility and -inf rule from coordinates',
+         'tied diagonal keys skipped for the optimality clause; multiplier >= 0'),
+ 'C15': ('trace monitor on resolveConflicts / checkForConflicts with identity lineage',
+         'per resolver call the chain, identity and score of every position, every comparison and the output are recorded during hostile direct drives of the real Aligner and end-to-end runs; clauses (a) contiguous sub-run, (b) no re-scoring, (c) no shared/crossing label, (d) protected pairs kept',
+         'finding resolver-uncompared-neighbours (clause c only) is reported as KNOWN-FINDING by trace mechanism'),
+ 'C16': ('exhaustive small-scope enumeration of vectorise/blur/bin-to-bp; wrappers on find_peaks/getInitialAlignment/selectPeaks end to end',
+         '593k vectorise cases, all bit vectors up to 8/12 bits x radius 0-3, bin centres for resolutions 1-11 (+100..1500), random peak lists, and end-to-end recomputation of every primary peak score and of the top-peaksCount selection',
+         'bits beyond `end` checked for exactness only; ties between equal scores free'),
+ 'C17': ('reference-model monitor: generator dictionary vs CmapReader; trim invariants; Program\'s maps vs independent text parser',
+         'random CMAP files (shuffled rows, permuted/extra columns, unlabelled molecules, huge ids, filters with unknown ids) and the maps Program actually used end to end',
+         'empty id filter means all molecules'),
+ 'C18': ('round-trip monitor: XmapReader.readAlignments on every file COMA wrote vs independent text parse',
+         'files from ordinary, degenerate (header-only, one record) and long-molecule runs in all modes are read back with both pair parsers; ids, strand, HitEnum, pairs, truncated coordinates/lengths, confidence and pair coordinates compared',
+         'records with out-of-range labels skipped for the coordinate clause'),
+ 'C19': ('invariant monitor on AlignmentComparer.compare(A,B), (B,A), (A,A)',
+         'random alignment-set pairs with repeated keys, empty and duplicated-label pair lists, both combine modes, plus real COMA output vs the bundled RefAligner XMAP; partition, bounds, reflexivity and swap clauses',
+         'identity is not required to be symmetric (difflib)'),
+ 'C20': ('conservation monitor on cluster_indels / write_indel_file; self-consistency monitor on both indel finders',
+         'random sorted call lists (multi-chromosome, near the blur distance, repeated ids), written files parsed back, synthetic drives of both look_for_indels_in_breakage functions and the molecule_indels flow on real all-mode output',
+         'exceptions inside the sv scripts on harvested inputs count as not applicable'),
 }
 NOT_YET = 'check not built yet in this session (planned, see DESIGN.md section 5)'
 
@@ -22,7 +78,9 @@ def main():
     for pid in props:
         if pid not in CHECKS:
             continue
-        tech, text, note, ref = CHECKS[pid]
+        tech, text, note = CHECKS[pid]
+        ref = 'DESIGN.md section 5 ' + pid
+        text = 'Exploration (runtime monitoring): ' + text + '. Verdict = held on the K executions observed (counts in the evidence file), not a proof.'
         checks.append({
             'property_id': pid,
             'quick_cmd': './check %s --tier quick' % pid,
